@@ -1,6 +1,6 @@
 (** Powers of ten in Q, integrality, and the arithmetic of one rounding step (C09). *)
 From Coq Require Import ZArith QArith Qabs Qround Qpower Bool Lia Lqa Psatz.
-From QV Require Import Model.Printing.
+From QV Require Import Gen.PrintingGen Model.Printing.
 Open Scope Q_scope.
 
 Lemma pow10_pos k : 0 < pow10 k.
@@ -99,3 +99,22 @@ Proof.
   intros Hf Hy Hi. rewrite (rounds_is_int f y Hf Hi), Hy.
   pose proof (pow10_pos k). pose proof (pow10_pos d). field. split; lra.
 Qed.
+
+(** ** What the generated arithmetic of printing.py must say for the theorems to hold
+    (these are the lemmas that break when the source changes an exponent or a constant) *)
+Lemma gen_back_off_err_eq o n : gen_back_off_exp_err o n = (o - n + 1)%Z.
+Proof. unfold gen_back_off_exp_err. ring. Qed.
+Lemma gen_back_off_val_eq o n : gen_back_off_exp_val o n = (o - n + 1)%Z.
+Proof. unfold gen_back_off_exp_val. ring. Qed.
+Lemma gen_decimals_eq o n : gen_clamp (gen_decimals_exp o n) = Z.max 0 (- o + n - 1).
+Proof.
+  unfold gen_clamp, gen_decimals_exp.
+  match goal with |- context [if ?b then _ else _] => destruct b eqn:E end; lia.
+Qed.
+Lemma gen_snap_next_eq r : gen_snap_next r = (r + 1)%Z.
+Proof. unfold gen_snap_next. ring. Qed.
+Lemma gen_snap_bump_eq r : gen_snap_bump r = (r + 1)%Z.
+Proof. unfold gen_snap_bump. ring. Qed.
+(** the tolerance is below 1 and leaves room for 13 significant figures *)
+Lemma gen_snap_factor_ok : 1 - (1 # 10000000000000) < snap_factor /\ snap_factor < 1.
+Proof. split; reflexivity. Qed.
